@@ -14,6 +14,7 @@ pub fn dispatch(mode: &str, kind: &str, input: Option<&Value>) -> Option<Value> 
         ("replay", "apath_cmp") => replay_cmp(input?),
         ("search", "apath_valid") => search_valid(),
         ("replay", "apath_valid") => replay_valid(input?),
+        ("search", "apath_deserialize") | ("replay", "apath_deserialize") => search_deserialize(),
         _ => return None,
     })
 }
@@ -217,4 +218,22 @@ pub fn search_valid() -> Value {
 pub fn replay_valid(input: &Value) -> Value {
     let s = input["s"].as_str().unwrap();
     check_valid(s).unwrap_or(json!({"found": false, "kind": "apath_valid", "input": input}))
+}
+
+
+/// Decoding an apath from JSON must accept exactly the well-formed ones (C10: a damaged index must not smuggle in a
+/// path with an empty, "." or ".." component that later panics or escapes the restore destination).
+pub fn search_deserialize() -> Value {
+    let cands = ["/", "/a", "/a/b", "/é", "", "a", "//", "/a//b", "/a/", "/a/../b", "/..", "/./a", "/a\\u0000b", "../x"];
+    for c in cands {
+        let js = format!("\"{}\"", c);
+        let got = serde_json::from_str::<Apath>(&js).is_ok();
+        let unescaped = c.replace("\\u0000", "\0");
+        let exp = valid(&unescaped);
+        if got != exp {
+            return json!({"found": true, "kind": "apath_deserialize", "input": {"json": js}, "real": got, "expected": exp,
+                "explain": format!("decoding {js} as an Apath {} although the path is {}", if got {"succeeds"} else {"fails"}, if exp {"well-formed"} else {"not well-formed"})});
+        }
+    }
+    json!({"found": false, "kind": "apath_deserialize", "evaluations": cands.len()})
 }
